@@ -306,12 +306,15 @@ def wFinishEntry (h : Handle) (r : Rc) : Handle × Rc :=
     if h.st == .data then ({ relEnt h with st := .header }, r)
     else ({ h with st := .header }, .ok)
 
+/-- What `__archive_write_filters_open` returns: OK when all `len` filters opened,
+else the result of the open that failed (which is not ARCHIVE_OK). -/
+def wOpenRet (o : Outcome) (len : Nat) : Rc :=
+  if o.n ≥ len then .ok else if o.rc == .ok then .fatal else o.rc
+
 /-- `archive_write_open2` after the check -/
 def wOpenBody (o : Outcome) (h : Handle) : Handle × Rc :=
   let h := { h with client := true, filters := h.filters ++ [FSt.new], lost := h.lost + b2n h.client }
-  let allOpen := decide (o.n ≥ h.filters.length)
-  -- the result of the open that failed is not ARCHIVE_OK
-  let ret := if allOpen then Rc.ok else if o.rc == .ok then Rc.fatal else o.rc
+  let ret := wOpenRet o h.filters.length
   -- the client filter is opened first, so the client's open callback always runs
   let h := { h with filters := wOpenFilters h.filters o.n, nOpen := h.nOpen + 1 }
   if ret.val < Rc.warn.val then
@@ -426,9 +429,8 @@ def Op.belongs : Op → Kind → Bool
   | .dHeader, k | .dData, k | .dDataBlock, k | .dFinishEntry, k => k == .writeDisk
   | .kOpen, k | .kNextHeader, k | .kReadDataBlock, k => k == .readDisk
 
-def step (h : Handle) (op : Op) (o : Outcome) : Handle × Rc :=
-  if !h.alive then (h, .dead) else
-  if !op.belongs h.kind then (h, .nosite) else
+/-- One call on a live handle of the right kind. -/
+def stepCore (h : Handle) (op : Op) (o : Outcome) : Handle × Rc :=
   match op with
   | .plain f => checked h f fun h =>
       if o.alt == 9 then ({ h with st := .fatal }, .fatal)     -- an allocation-failure exit that fails the handle
@@ -497,6 +499,12 @@ def step (h : Handle) (op : Op) (o : Outcome) : Handle × Rc :=
       | .writeDisk => dFree o h
       | .readDisk => kFree h
       | .match => checked h "archive_match_free" fun h => (relHandle (relRegs h), .ok)
+
+/-- One call: a freed handle answers `dead` (the pointer must not be used again),
+a call that is not of the handle's kind `nosite`. -/
+def step (h : Handle) (op : Op) (o : Outcome) : Handle × Rc :=
+  if !h.alive then (h, .dead) else
+  if !op.belongs h.kind then (h, .nosite) else stepCore h op o
 
 /-- `archive_*_new()` -/
 def new (k : Kind) : Handle :=
